@@ -15,6 +15,19 @@ def TG(n=2):   # tagging component upstream, tags must reach every downstream re
     return dict(name="TG", max=2, bufsize=2,
                 procs=[src("s", zoo.items(n)), dict(name="mt", kind="maptotags", tags={"who": "w%id", "batch": "b7"}), cmd("a", ["in"]), cmd("b", ["x"], ["o1", "o2"])],
                 edges=[E("s.out", "mt.in"), E("mt.out", "a.in"), E("a.out", "b.x")])
+def TGT(n=2):  # tagging component directly behind a task: it rewrites the audit file of the file passing through
+    return dict(name="TGT", max=2, bufsize=2,
+                procs=[src("s", zoo.items(n)), cmd("a", ["in"]), dict(name="mt", kind="maptotags", tags={"who": "w%id", "batch": "b7"}), cmd("b", ["x"], ["o1", "o2"])],
+                edges=[E("s.out", "a.in"), E("a.out", "mt.in"), E("mt.out", "b.x")])
+def TG3(n=2):  # tags added in two steps along a chain
+    return dict(name="TG3", max=2, bufsize=2,
+                procs=[src("s", zoo.items(n)), cmd("a", ["in"]), dict(name="mt1", kind="maptotags", tags={"batch": "b7"}), cmd("b", ["x"]),
+                       dict(name="mt2", kind="maptotags", tags={"stage": "s2", "who": "w%id"}), cmd("c", ["x"])],
+                edges=[E("s.out", "a.in"), E("a.out", "mt1.in"), E("mt1.out", "b.x"), E("b.out", "mt2.in"), E("mt2.out", "c.x")])
+def Z7J(n=2):  # both outputs of one task are inputs of the same downstream task
+    return dict(name="Z7J", max=2, bufsize=2,
+                procs=[src("s", zoo.items(n)), cmd("a", ["in"], ["o1", "o2"]), cmd("j", ["l", "r"])],
+                edges=[E("s.out", "a.in"), E("a.o1", "j.l"), E("a.o2", "j.r")])
 def PP(n=2):   # Prepend: the recorded command must be the executed one
     i = zoo.Z1(n=n); i["name"] = "PP"
     for p in i["procs"]:
@@ -43,17 +56,22 @@ def parse_time(s):
     return datetime.datetime(*map(int, m.groups()[:6])).timestamp() + float(m.group(7) or 0)
 
 def expected_tags(inst, exp):
-    """tags a file carries: added by maptotags components upstream, inherited through tasks"""
+    """tags a file carries: added by maptotags components it passes through, inherited through tasks from all inputs"""
     ni = norm_inst(inst)
     mts = {p["name"]: p.get("tags", {}) for p in ni["procs"] if p["kind"] == "maptotags"}
-    # which source items pass through which maptotags (direct src -> mt edges only in the harness instances)
-    tag_of_item = {}
+    procs = {p["name"]: p for p in ni["procs"]}
+    added = {}
     for e in ni["edges"]:
         if e["tp"] in mts:
-            srcp = [p for p in ni["procs"] if p["name"] == e["fp"]][0]
-            for it in srcp["items"]:
-                tag_of_item[it] = {k: v.replace("%id", it) for k, v in mts[e["tp"]].items()}
-    tags = dict(tag_of_item)
+            up = procs[e["fp"]]
+            if up["kind"] == "src":
+                items = list(up["items"])
+            else:       # outputs of the tasks of a command process, at the connected port
+                port = e["from"].split(".", 1)[1]
+                items = [o for t in exp["tasks"] if t["proc"] == up["name"] for o in t["outs"] if o.startswith("%s.%s_" % (up["name"], port))]
+            for it in items:
+                added.setdefault(it, {}).update({k: v.replace("%id", it) for k, v in mts[e["tp"]].items()})
+    tags = {k: dict(v) for k, v in added.items()}
     changed = True
     while changed:
         changed = False
@@ -62,9 +80,21 @@ def expected_tags(inst, exp):
             for i in t["ins"]:
                 merged.update(tags.get(i, {}))
             for o in t["outs"]:
-                if tags.get(o) != merged:
-                    tags[o] = merged; changed = True
+                want = dict(merged); want.update(added.get(o, {}))
+                if tags.get(o) != want:
+                    tags[o] = want; changed = True
     return tags
+
+def upstream_vs_disk(path, rec, audits, report, prop="C10", where=""):
+    """every record embedded under Upstream, at any depth, is the audit record of that file as it is on disk"""
+    for ip, up in ((rec or {}).get("Upstream") or {}).items():
+        if ip in audits and isinstance(audits[ip], dict) and isinstance(up, dict):
+            if norm_audit(up, ()) != norm_audit(audits[ip], ()):
+                diff = [k for k in set(up) | set(audits[ip]) if k != "Upstream" and up.get(k) != audits[ip].get(k)]
+                report(prop, "%s.audit.json: the record embedded for %s%s is not the audit record of that file on disk (differs in %s)" % (path, ip, where, sorted(diff) or "nested Upstream"))
+                continue
+        if isinstance(up, dict):
+            upstream_vs_disk(path, up, audits, report, prop, where=" (below %s)" % ip)
 
 def audit_checks(inst, exp, rr, report, dirmap_events=None):
     """field-by-field faithfulness of every audit file of one completed run"""
@@ -115,11 +145,7 @@ def audit_checks(inst, exp, rr, report, dirmap_events=None):
                 missing = {k: v for k, v in ((up or {}).get("Tags") or {}).items() if (rec.get("Tags") or {}).get(k) != v}
                 if missing:
                     report("C10", "%s.audit.json: tags attached upstream (%s on %s) are not present on the downstream record %r" % (path, missing, ip, rec.get("Tags")))
-            for i in t["ins"]:
-                ip = path_of(i)
-                if ip in audits and isinstance(audits[ip], dict) and ip in (rec.get("Upstream") or {}):
-                    if norm_audit(rec["Upstream"][ip], ()) != norm_audit(audits[ip], ()):
-                        report("C10", "%s.audit.json: Upstream[%s] is not the audit record of that input file" % (path, ip))
+            upstream_vs_disk(path, rec, audits, report)
 
 def roundtrip(rr_dir_files):
     """Load(Write(r)) = r via the real unmarshal/marshal code (probe)"""
@@ -142,7 +168,7 @@ def check_C10(tier):
     R = FSRunner(chk, {"C10"})
     R.closed(FA(), maxruns=2, env=("crash", "cleanup", "rerun"))
     R.closed(FB(), maxruns=1, env=())
-    insts = [zoo.Z1(n=3), zoo.Z3(n=3), zoo.Z7(n=2), TG(), PP(), zoo.Z6(n=2), zoo.Z4(n=2)] + ([zoo.Z2(n=3), FD(), zoo.Z14(n=3), zoo.Z9(n=2)] if thorough else [])
+    insts = [zoo.Z1(n=3), zoo.Z3(n=3), zoo.Z7(n=2), TG(), TGT(), TG3(), Z7J(), PP(), zoo.Z6(n=2), zoo.Z4(n=2)] + ([zoo.Z2(n=3), FD(), zoo.Z14(n=3), zoo.Z9(n=2)] if thorough else [])
     def one(inst):
         exp = fc.expected(inst)
         cmds = [p["name"] for p in inst["procs"] if p["kind"] in ("cmd", "gofunc")]
@@ -236,16 +262,16 @@ def check_C11(tier):
                 if path not in base_aud: continue
                 if norm_audit(rec) != base_aud[path] and not f7:
                     R.report("C11", "after history '%s' the lineage in %s.audit.json differs from an uninterrupted run" % (h.label, path), h)
-                # ancestor records identical to those on disk
-                for ip, up in ((rec or {}).get("Upstream") or {}).items():
-                    if ip in aud and isinstance(aud[ip], dict) and up != aud[ip] and not f7:
-                        R.report("C11", "after history '%s' Upstream[%s] in %s.audit.json is not identical to the record on disk" % (h.label, ip, path), h)
+                # ancestor records (at any depth) identical to those on disk
+                if not f7:
+                    upstream_vs_disk(path, rec, aud, lambda prop, msg: R.report("C11", "after history '%s' %s" % (h.label, msg), h), prop="C11")
         return judge
     from . import fs as fsmod
     z3 = zoo.Z3(n=3, mx=2); z3["ctl"] = {"a.sleep": "0.12"}     # diamond with a positional join; recomputed tasks are slow
-    for inst in [FA(), FB(), z3] + ([FD(), zoo.Z3(n=2, mx=1)] if thorough else []):
+    tg3 = TG3()
+    for inst in [FA(), FB(), z3, tg3] + ([FD(), zoo.Z3(n=2, mx=1), TGT()] if thorough else []):
         exp = fc.expected(inst)
-        hs = crash_histories(inst, rng, n=None if thorough else 16, depth2=6 if thorough else 2, cleaned=True) if inst is not z3 else []
+        hs = crash_histories(inst, rng, n=None if thorough else 16, depth2=6 if thorough else 2, cleaned=True) if inst["name"] not in ("Z3", "TG3", "TGT") else []
         cmds = [p["name"] for p in inst["procs"] if p["kind"] in ("cmd", "gofunc")]
         # RunTo split: first the upstream part, then everything
         for tgt in cmds[:-1]:
@@ -265,6 +291,15 @@ def check_C11(tier):
                 hs.append(fs.History(inst, [("run", None), ("delete", ordered, with_audit), ("run", None)],
                                      label="complete run, delete %s (+downstream%s), re-run" % (t["key"], ", audit files too" if with_audit else "")))
                 if inst.get("max", 1) > 1: hs[-1].accept = False
+        if inst["name"] in ("TG3", "TGT"):
+            # a tagging component re-writes the audit file of the file passing through it; a kill inside that write leaves it empty.
+            # The resumed run may stop (exit != 0), but what it produces must carry the lineage of an uninterrupted run
+            first_mt = [p["name"] for p in inst["procs"] if p["kind"] == "maptotags"][0]
+            for item in zoo.items(2):
+                h = fs.History(inst, [("spec", dict(mode="runto", targets=["a"])), ("run", None), ("truncate", ["o/a.out_%s.txt.audit.json" % item]),
+                                      ("spec", dict(mode="run", targets=[])), ("run", None)],
+                               label="RunTo(a), audit file of a.out_%s emptied by a kill inside its re-write (%s), Run" % (item, first_mt)); h.accept = False
+                hs.append(h)
         R.histories(inst, hs, judge=make_judge(inst))
     # write / read round trip of real audit files
     inst = zoo.Z3(n=2)
